@@ -558,7 +558,7 @@ func iRepeat(m *machine, fr *frame, args []value) value {
 	if n < 0 {
 		panic(targetPanic{iface{t: types.Typ[types.String], v: "strings: negative Repeat count"}})
 	}
-	if n > 4096 {
+	if n > 4096 && !(s.Op == "cs" && int64(len(s.S))*n <= 1<<20) {
 		panic(cut{"strings.Repeat count too large"})
 	}
 	if s.Op == "cs" {
